@@ -812,6 +812,57 @@ def j9_outputs(prog, rep):
     return n
 
 
+def j10_strstep(prog, rep):
+    """The option parser looks at character k >= 1 of a command-line word only where character k - 1 of the same word is known
+    not to be NUL (compared equal to a non-NUL character, or unequal to NUL) -- the word may be the empty string, or "-".
+    Reads are followed through local aliases of the word (`w = argv[optind]`)."""
+    f = prog.func("util/getopt.c", "getopt")
+    if f is None:
+        raise cdb.AnalysisBroken("anchor missing: getopt")
+    u = f.unit
+    argv = [("v", q["name"], q["id"]) for q in f.params if q["name"] == "argv"]
+    if not argv:
+        raise cdb.AnalysisBroken("getopt has no parameter argv")
+    words = set()
+    # terms that denote a command-line word: argv[i], and single-definition locals assigned one
+    for e in f.all_elems():
+        if e.cls == "ArraySubscriptExpr" and norm(e.kid(0)) == argv[0]:
+            words.add(norm(e))
+    ch = True
+    while ch:
+        ch = False
+        for e in f.all_elems():
+            if e.is_assign and e.op == "=" and norm(e.kid(0))[0] == "v" and norm(e.kid(1)) in words and norm(e.kid(0)) not in words:
+                defs = [x for x in f.all_elems() if (x.is_assign or x.is_incdec) and norm(x.kid(0)) == norm(e.kid(0))]
+                if len(defs) == 1:
+                    words.add(norm(e.kid(0)))
+                    ch = True
+    n = 0
+    for e in f.all_elems():
+        if not (e.cls == "ImplicitCastExpr" and e.op == "LValueToRValue"):
+            continue
+        k = e.kid(0).strip() if e.kid(0) is not None else None
+        if k is None or k.cls != "ArraySubscriptExpr":
+            continue
+        t = norm(k)
+        if t[1] not in words or t[2][0] != "c" or t[2][1] < 1:
+            continue
+        n += 1
+        prev = ("[]", t[1], ("c", t[2][1] - 1))
+        gs = [(op, L, R) for cond, truth in f.edge_conds(e) for op, L, R, _, _ in cond_atoms(cond, truth)]
+        # a local that was given the previous character (and nothing else, ever) stands for it
+        copies = set()
+        for x in f.all_elems():
+            if x.is_assign and x.op == "=" and norm(x.kid(0))[0] == "v" and norm(x.kid(1)) == prev and f.dominates(x, e):
+                if len([y for y in f.all_elems() if (y.is_assign or y.is_incdec) and norm(y.kid(0)) == norm(x.kid(0))]) == 1:
+                    copies.add(norm(x.kid(0)))
+        ok = any((L == prev or L in copies) and ((op == "==" and R[0] == "c" and R[1] != 0) or (op == "!=" and R == ("c", 0))) for op, L, R in gs)
+        rep.check(ok, "J10-strstep", "getopt reads %s only after %s was found not to be NUL" % (k.text[:30], show(prev)), e.where,
+                  "no controlling test says the previous character is not the terminator: for the word \"\" (or \"-\") this reads past the end of the string",
+                  function=f.name, construct="strstep")
+    return n
+
+
 STRING_INPUTS = (("util/hexify.c", "unhexify", 0),)
 
 
@@ -887,6 +938,8 @@ def run(tier):
         if j8_heapindex(prog, rep) < 8:
             rep.defer_broken("J8: fewer than 8 subscripts of allocated arrays found in the address routines")
         j6_eof(prog, rep)
+        if j10_strstep(prog, rep) < 3:
+            rep.defer_broken("J10: fewer than 3 reads of a later character of a command-line word found in getopt")
         if j9_outputs(prog, rep) < 2:
             rep.defer_broken("J9: aws_readkeys has fewer than two string outputs or no success return")
         # "read only the bytes they were given": nothing released is looked at again (a diagnostic that prints an address string
